@@ -260,9 +260,7 @@ Proof.
   - exact E.
 Qed.
 
-(* number of means < x, and number of means <= x *)
-Definition pl (cs : list centroid) (x : Q) : nat := part_point (fun c => Qltb (c_mean c) x) cs.
-Definition pu (cs : list centroid) (x : Q) : nat := part_point (fun c => negb (Qltb x (c_mean c))) cs.
+(* [pl cs x]: number of means < x, [pu cs x]: number of means <= x (Spec/TDigestSpec.v) *)
 
 Lemma pl_below cs x i : (i < pl cs x)%nat -> c_mean (nthc cs i) < x.
 Proof. intros H. apply pp_true in H. qb H. exact H. Qed.
